@@ -14,6 +14,7 @@ import (
 // scripted renderers: emit a known numbered sequence from 1..P producers
 
 type script3 struct {
+	pre     func() // runs first thing in Render (fault injection)
 	jid     uint32
 	batches [][][]*sdf.Triangle3 // per producer
 }
@@ -21,6 +22,9 @@ type script3 struct {
 func (r *script3) Info(s sdf.SDF3) string { return "scripted" }
 
 func (r *script3) Render(s sdf.SDF3, out sdf.Triangle3Writer) {
+	if r.pre != nil {
+		r.pre()
+	}
 	if len(r.batches) <= 1 {
 		if len(r.batches) == 1 {
 			for bi, b := range r.batches[0] {
@@ -48,6 +52,7 @@ func (r *script3) Render(s sdf.SDF3, out sdf.Triangle3Writer) {
 }
 
 type script2 struct {
+	pre     func()
 	jid     uint32
 	batches [][][]*sdf.Line2
 }
@@ -55,6 +60,9 @@ type script2 struct {
 func (r *script2) Info(s sdf.SDF2) string { return "scripted" }
 
 func (r *script2) Render(s sdf.SDF2, out sdf.Line2Writer) {
+	if r.pre != nil {
+		r.pre()
+	}
 	if len(r.batches) <= 1 {
 		if len(r.batches) == 1 {
 			for bi, b := range r.batches[0] {
@@ -111,6 +119,7 @@ type render3er interface {
 }
 
 type tap3 struct {
+	pre   func()
 	inner render3er
 	jid   uint32
 	seen  []*sdf.Triangle3
@@ -118,6 +127,9 @@ type tap3 struct {
 
 func (a *tap3) Info(s sdf.SDF3) string { return a.inner.Info(s) }
 func (a *tap3) Render(s sdf.SDF3, out sdf.Triangle3Writer) {
+	if a.pre != nil {
+		a.pre()
+	}
 	a.inner.Render(s, &tapWriter3{inner: out, jid: a.jid, seen: &a.seen})
 }
 
@@ -148,6 +160,7 @@ type render2er interface {
 }
 
 type tap2 struct {
+	pre   func()
 	inner render2er
 	jid   uint32
 	seen  []*sdf.Line2
@@ -155,6 +168,9 @@ type tap2 struct {
 
 func (a *tap2) Info(s sdf.SDF2) string { return a.inner.Info(s) }
 func (a *tap2) Render(s sdf.SDF2, out sdf.Line2Writer) {
+	if a.pre != nil {
+		a.pre()
+	}
 	a.inner.Render(s, &tapWriter2{inner: out, jid: a.jid, seen: &a.seen})
 }
 
